@@ -106,7 +106,7 @@ struct cmplx_t
     constexpr cmplx_t(const cmplx_t&) = default;
 
     //scalar -> cmplx_t
-    template<typename T, class S_ = typename std::is_arithmetic<T>::type>
+    template<typename T, class S_ = std::enable_if_t<std::is_arithmetic_v<T>>>
     constexpr cmplx_t(const T& v)
       : re{static_cast<real_t>(v)} {
     }
